@@ -70,6 +70,12 @@ def lib():
     return _LIB
 
 
+class StepBudget(BaseException):
+    """raised by the monitors when one call exceeds its step budget (counted in
+    deadline-check calls and rule applications, never in wall-clock time); the
+    case is recorded as skipped, not as a violation"""
+
+
 class Monitors:
     """The set of monitors a worker installs once; cheap enough to stay on for
     every case. Per-case state is reset by ``begin()``."""
@@ -87,6 +93,10 @@ class Monitors:
         self.case_raises = []            # exceptions leaving a rule body
         self.snapshots = snapshots
         self.snap_breaches = []
+        self.step_budget = 20000         # deadline-check calls per API call (a typical parse makes < 200)
+        self.rule_budget = 150000        # rule applications per API call
+        self.case_steps = 0
+        self.case_rule_calls = 0
         self._orig_registry = {}
         self._install()
 
@@ -120,12 +130,34 @@ class Monitors:
 
         self.p.set(m, "_preprocess_string", _preprocess_string)
 
+        orig_timeout = m.timeout_
+
+        def timeout_(t):
+            f = orig_timeout(t)
+            mon.case_steps = 0
+            mon.case_rule_calls = 0
+
+            def t_fun():
+                mon.case_steps += 1
+                if mon.step_budget and mon.case_steps > mon.step_budget:
+                    mon.events["step_budget_exceeded"] += 1
+                    raise StepBudget("deadline-check calls > %d" % mon.step_budget)
+                return f()
+
+            return t_fun
+
+        self.p.set(m, "timeout_", timeout_)
+
     def _wrap_rule(self, name, fn):
         mon = self
         snap = self.snapshots
 
         def monitored(ts, *args):
             mon.rule_calls[name] += 1
+            mon.case_rule_calls += 1
+            if mon.rule_budget and mon.case_rule_calls > mon.rule_budget:
+                mon.events["step_budget_exceeded"] += 1
+                raise StepBudget("rule applications > %d" % mon.rule_budget)
             before = [V.full(a) for a in args] if snap else None
             try:
                 res = fn(ts, *args)
